@@ -30,7 +30,11 @@ CORRESPONDENCE = ("Model.Cis.{node_induced_connected_subgraphs,nics_inner,enumer
                   "sort descending / clear / append or insert a foreign id / overwrite or delete elements) before asking for the next "
                   "item, in the run with a DAG as well; the copies are what is judged. For adversarial cases with a DAG a third run "
                   "additionally edits every `U` list stored in the DAG's node attributes between items and must yield what the "
-                  "polite run yields (runtime invariant, class dag_u_alias). "
+                  "polite run yields (runtime invariant, class dag_u_alias). In ~20% of the cases 2-3 enumerations are ALIVE AT ONCE: the case's "
+                  "call plus one or two companions (same graph object with another anchor / the same call once more / another graph "
+                  "with the same number of nodes), consumed interleaved (round-robin, nested, nested from the middle, staggered); the "
+                  "case's generator must yield exactly what it yields when consumed alone (runtime invariant) and every "
+                  "companion's collected output is judged by agree/spec against the model for its own (graph, anchor). "
                   "compared: list(generator) as a family of node sets with multiplicities (yields_equivb: the property does not fix the "
                   "order of the yields nor the order inside a yielded list), or the exception class. With the pinned code the "
                   "model also reproduces the exact order (yields_eqb held on all 31564 thorough-tier cases)")
@@ -50,6 +54,8 @@ RULE = ("quick: EVERY labelled simple graph on 1-4 nodes (all edge subsets, ids 
         "x every anchor, so that equal ints are distinct objects; non-integer names have length >= 2. The anchor argument is a "
         "fresh equal object in ~85% of the cases and the graph's own node object in the rest (histogram class anchor_obj). "
         "Half of the cases (chosen by the case index) are consumed adversarially (yielded lists edited in place between items). "
+        "About 20% of the cases get 1-2 companion enumerations that are alive at the same time and consumed interleaved "
+        "(histogram classes interleave=, companions=). Name style mixed / mixed3 put strings, ints and tuples into ONE graph. "
         "non-trivial = anchor is a node and at least 2 sets are yielded; distinct = distinct (node order, adjacency "
         "order, anchor, id naming)")
 TRUSTED = ["model of networkx.Graph (Base/NX.v: node and adjacency dict order; relabel_nodes, neighbors) - validated by the exact comparison",
@@ -93,7 +99,7 @@ def atlas(nmax):
             yield g
 
 
-NAME_STYLES = ["str", "strnum", "tuple", "mixed"]
+NAME_STYLES = ["str", "strnum", "tuple", "mixed", "mixed3"]
 
 
 def make_names(rng, nodes):
@@ -110,8 +116,12 @@ def make_names(rng, nodes):
             names[n] = "n%d" % nums[k]
         elif style == "tuple":
             names[n] = ("C", nums[k] % 7, n)
+        elif style == "mixed":
+            # strings, tuples and ints within one graph
+            names[n] = [pool[k % 26] + str(k), (k, "x"), 1000 + nums[k], "N%d" % n][k % 4]
         else:
-            names[n] = [pool[k % 26] + str(k), (k, "x"), "N%d" % n][k % 3]
+            # mixed3: like 'a', 3, (1, 2) (one-letter strings and small ints on purpose: cached objects)
+            names[n] = [pool[k % 26] if k < 26 else pool[k % 26] + str(k), nums[k], (k, nums[k])][(k + nums[0]) % 3]
     return names, style
 
 
@@ -255,7 +265,42 @@ def variants(rng, g, a, src, kinds):
 def generate(seed, tier, ncases=None):
     it = itertools.islice(_generate(seed, tier), ncases) if ncases else _generate(seed, tier)
     for i, c in enumerate(it):
-        yield _with_consumer(seed, i, _with_anchor_obj(seed, i, _with_dag(seed, i, _with_history(seed, i, c))))
+        yield _with_interleave(seed, i, _with_consumer(seed, i, _with_anchor_obj(seed, i, _with_dag(seed, i, _with_history(seed, i, c)))))
+
+
+SCHEDULES = ["roundrobin", "nested", "nested_mid", "staggered"]
+
+
+def _with_interleave(seed, i, c):
+    """About 20% of the cases get 1-2 companion enumerations that are alive at the same time as the case's own:
+    same graph object with another anchor, the same call once more, or another graph with the same number of nodes."""
+    rng = lib.rng_for(seed, ID + ":interleave", i)
+    g = c["graph"]
+    if rng.random() >= 0.2 or c["anchor"] not in g:
+        return c
+    n = g.number_of_nodes()
+    others = [x for x in g.nodes if x != c["anchor"]]
+    co = []
+    for _ in range(rng.choice([1, 1, 2])):
+        kind = rng.choice(["anchor", "anchor", "twice", "other", "other"])
+        if kind == "anchor" and others:
+            co.append({"same": True, "anchor": rng.choice(others)})
+        elif kind == "twice" or n > 12:
+            co.append({"same": True, "anchor": c["anchor"]})
+        else:
+            while True:
+                g2 = rand_sparse(rng, n, n)
+                a2 = rng.choice(list(g2.nodes))
+                if count_connected_sets(g2, a2, MAX_SETS) <= MAX_SETS:
+                    break
+            h2, scheme, m = reid2(rng, g2, a2, scheme=rng.choice(["contig", "contig", "shuffled", "negshift", "big"]))
+            sub = mk(h2, m[a2], scheme, "companion")
+            if c["names"] is not None:
+                sub["names"], sub["style"] = make_names(rng, list(h2.nodes))
+            co.append({"same": False, "case": sub})
+    c = dict(c)
+    c["inter"] = {"sched": rng.choice(SCHEDULES), "k": rng.randint(1, 3), "first": rng.random() < 0.7, "co": co}
+    return c
 
 
 def _with_consumer(seed, i, c):
@@ -380,6 +425,21 @@ def corpus():
             g.add_edge(u, v, bond=1)
         c = mk(g, a, "corpus", "corpus")
         c["adv"] = adv
+        yield c
+    # enumerations alive at once: two anchors of one graph, the same call twice, two graphs of equal size
+    g = nx.Graph()
+    g.add_nodes_from([0, 1, 2, 3])
+    for u, v in [(0, 1), (0, 2), (0, 3), (1, 2)]:
+        g.add_edge(u, v, bond=1)
+    g2 = nx.Graph()
+    g2.add_nodes_from([0, 1, 2, 3])
+    for u, v in [(0, 1), (1, 2), (2, 3)]:
+        g2.add_edge(u, v, bond=1)
+    for sched, co in [("roundrobin", [{"same": True, "anchor": 2}]), ("nested", [{"same": True, "anchor": 3}, {"same": True, "anchor": 0}]),
+                      ("nested_mid", [{"same": False, "case": mk(g2, 1, "corpus", "companion")}]),
+                      ("staggered", [{"same": False, "case": mk(gens.copy_exact(g2), 0, "corpus", "companion")}, {"same": True, "anchor": 1}])]:
+        c = mk(g, 0, "corpus", "corpus")
+        c["inter"] = {"sched": sched, "k": 2, "first": True, "co": co}
         yield c
     # ids below n with a negative one, anchor 0: the path -1 - 0 - 1, and 0 as the largest id
     for nodes, edges, a in [([-1, 0, 1], [(-1, 0), (0, 1)], 0), ([0, -2, -1], [(-2, -1), (-1, 0)], 0),
@@ -511,9 +571,8 @@ def consume(gen, rng, foreign, dag):
     return res
 
 
-def run_once(c, mode):
-    """One call on a fresh copy of the case's graph. mode: "plain" (no DAG), "dag" (DAG=nx.DiGraph()), "dagu" (with a DAG
-    whose stored U lists are edited too). The consumer is adversarial iff the case has c["adv"]."""
+def prepare(c):
+    """The graph object handed to the code (after the optional history), the renaming, the anchor argument."""
     h, fwd, back = named_graph(c)
     anchor, aclass = anchor_object(c, h, fwd)
     if c.get("hist"):
@@ -527,9 +586,88 @@ def run_once(c, mode):
             pass
         h.remove_edge(fresh(fwd(b1)), fresh(fwd(b2)))
         h.add_edge(fresh(fwd(a1)), fresh(fwd(a2)), **lab)
+    return h, fwd, back, anchor, aclass
+
+
+def foreign_id(c, fwd):
+    return fwd(max([x for x in c["graph"].nodes] + [0]) + 1000) if c["names"] is None else ("foreign", "id")
+
+
+def run_interleaved(c):
+    """The case's enumeration and its companions alive at once, consumed by the case's schedule. Returns the list of
+    results [(status, yields | message, False)], the case's own generator first."""
+    it = c["inter"]
+    h, fwd, back, anchor, _ = prepare(c)
+    rng = random.Random(c["adv"]) if c.get("adv") is not None else None
+    specs = [(h, anchor, back, foreign_id(c, fwd))]
+    for co in it["co"]:
+        if co["same"]:
+            specs.append((h, fresh(fwd(co["anchor"])), back, foreign_id(c, fwd)))
+        else:
+            h2, fwd2, back2, anchor2, _ = prepare(co["case"])
+            specs.append((h2, anchor2, back2, foreign_id(co["case"], fwd2)))
+    order = list(range(len(specs))) if it.get("first", True) else list(range(1, len(specs))) + [0]
+    gens_ = {j: node_induced_connected_subgraphs(specs[j][0], specs[j][1]) for j in order}   # created in this order
+    got = {j: [] for j in order}
+    err = {}
+    alive = list(order)
+
+    def step(j):
+        """one item from generator j; False when it is exhausted or has raised"""
+        try:
+            sub = next(gens_[j])
+        except StopIteration:
+            alive.remove(j)
+            return False
+        except Exception as e:  # noqa
+            err[j] = (type(e).__name__, str(e)[:200], False)
+            alive.remove(j)
+            return False
+        got[j].append(list(sub))
+        if rng is not None:
+            edit_list(rng, sub, specs[j][3])
+        return True
+
+    def finish(j):
+        while j in alive and step(j):
+            pass
+
+    sched, a = it["sched"], order[0]
+    if sched == "roundrobin":
+        while alive:
+            for j in list(alive):
+                step(j)
+    elif sched in ("nested", "nested_mid"):
+        for _ in range(1 if sched == "nested" else 1 + it.get("k", 1)):
+            if a in alive:
+                step(a)
+        for j in order[1:]:
+            finish(j)
+        finish(a)
+    else:  # staggered: one item from each, last created first; then complete them in creation order
+        for j in reversed(order):
+            step(j)
+        for j in order:
+            finish(j)
+    res = []
+    for j in range(len(specs)):
+        if j in err:
+            res.append(err[j])
+            continue
+        try:
+            res.append(("ok", [[specs[j][2](u) for u in sub] for sub in got[j]], False))
+        except Exception:  # noqa
+            res.append(("BadIds", repr(got[j])[:300], False))
+    return res
+
+
+def run_once(c, mode):
+    """One call on a fresh copy of the case's graph. mode: "plain" (no DAG), "dag" (DAG=nx.DiGraph()), "dagu" (with a DAG
+    whose stored U lists are edited too). The consumer is adversarial iff the case has c["adv"]."""
+    h, fwd, back, anchor, aclass = prepare(c)
     before = snapshot(h)
     rng = random.Random(c["adv"]) if c.get("adv") is not None else None
-    foreign = fwd(max([x for x in c["graph"].nodes] + [0]) + 1000) if c["names"] is None else ("foreign", "id")
+    foreign = foreign_id(c, fwd)
     try:
         if mode == "plain":
             res = consume(node_induced_connected_subgraphs(h, anchor), rng, foreign, None)
@@ -550,11 +688,13 @@ def run_once(c, mode):
 def run_impl(c):
     """(status, yields | message, input mutated?, result of the additional run with DAG=nx.DiGraph() | None,
     relation between the anchor argument and the graph's node object,
-    result of the run with a DAG whose stored U lists are edited between items | None)"""
+    result of the run with a DAG whose stored U lists are edited between items | None,
+    results of the interleaved run [the case's own generator, companion 1, ...] | None)"""
     plain = run_once(c, "plain")
     dag = run_once(c, "dag")[:3] if c.get("dag") else None
     dagu = run_once(c, "dagu")[:3] if c.get("dag") and c.get("adv") is not None and EDIT_DAG_U_LISTS else None
-    return plain[:3] + (dag, plain[3], dagu)
+    inter = run_interleaved(c) if c.get("inter") else None
+    return plain[:3] + (dag, plain[3], dagu, inter)
 
 
 def known_witness_fails(k):
@@ -588,6 +728,10 @@ def py_invariants(c, out):
     if out[3] is not None and not same_outcome(out, out[3]):
         msgs.append("the yields with DAG=nx.DiGraph() differ from the yields without DAG: %s"
                     % repr(out[3][1])[:300])
+    if len(out) > 6 and out[6] is not None and not same_outcome(out, out[6][0]):
+        msgs.append("consumed interleaved with %d other live enumeration(s) (schedule %s) the generator yields something else "
+                    "than when it is consumed alone: %s %s"
+                    % (len(out[6]) - 1, c["inter"]["sched"], out[6][0][0], repr(out[6][0][1])[:300]))
     if len(out) > 5 and out[5] is not None and not same_outcome(out, out[5]):
         msgs.append({"msg": "editing, between two items, the `U` lists that the generator stored in the node attributes of the "
                             "DAG argument changes what is enumerated: %s %s" % (out[5][0], repr(out[5][1])[:300]),
@@ -607,18 +751,32 @@ def coq_case(c, out):
     defs = {"g": ct.graph(c["graph"])}
     a = ct.z(c["anchor"])
     model = "node_induced_connected_subgraphs $g %s" % a
-    # the run with a DAG is checked separately only when it differs from the plain run
-    runs = [("out", out)] + ([("outd", out[3])] if out[3] is not None and not same_outcome(out, out[3]) else [])
+    # (graph definition, anchor term, name of the output definition, output): the runs with a DAG / interleaved are
+    # checked separately only when they differ from the plain run; every companion is checked for its own input
+    runs = [("g", a, "out", out)]
+    if out[3] is not None and not same_outcome(out, out[3]):
+        runs.append(("g", a, "outd", out[3]))
+    if len(out) > 6 and out[6] is not None:
+        if not same_outcome(out, out[6][0]):
+            runs.append(("g", a, "outi", out[6][0]))
+        for j, (co, o) in enumerate(zip(c["inter"]["co"], out[6][1:]), 1):
+            if co["same"]:
+                if co["anchor"] == c["anchor"] and same_outcome(out, o):
+                    continue
+                runs.append(("g", ct.z(co["anchor"]), "outc%d" % j, o))
+            else:
+                defs["g%d" % j] = ct.graph(co["case"]["graph"])
+                runs.append(("g%d" % j, ct.z(co["case"]["anchor"]), "outc%d" % j, o))
     agree, spec = [], []
-    for name, o in runs:
+    for gname, an, name, o in runs:
         t = out_term(o)
         if t is None:
             # an exception class the model cannot produce (or ids that are not nodes): the call failed on a
             # valid input, which the specification never allows
             return {"defs": {"g": defs["g"]}, "checks": {"agree": "false", "spec": "false"}, "diag": [model]}
         defs[name] = t
-        agree.append("yields_equivb (%s) $%s" % (model, name))
-        spec.append("cis_okb $g %s $%s" % (a, name))
+        agree.append("yields_equivb (node_induced_connected_subgraphs $%s %s) $%s" % (gname, an, name))
+        spec.append("cis_okb $%s %s $%s" % (gname, an, name))
     return {"defs": defs,
             "checks": {"agree": " && ".join(agree), "spec": " && ".join(spec)},
             "diag": [model, "connected_sets $g %s" % a]}
@@ -629,19 +787,37 @@ def _jname(x):
     return list(x) if isinstance(x, tuple) else x
 
 
-def describe(c):
+def _describe_base(c):
     return {"graph": ct.graph_py(c["graph"]), "anchor": c["anchor"], "scheme": c["scheme"], "src": c["src"],
             "style": c["style"], "hist": c.get("hist"), "dag": bool(c.get("dag")), "same_obj": bool(c.get("same_obj")), "adv": c.get("adv"),
             "names": None if c["names"] is None else [[k, _jname(v)] for k, v in c["names"].items()]}
 
 
-def from_json(d):
+def describe(c):
+    d = _describe_base(c)
+    it = c.get("inter")
+    if it:
+        d["inter"] = {"sched": it["sched"], "k": it.get("k", 1), "first": it.get("first", True),
+                      "co": [co if co["same"] else {"same": False, "case": _describe_base(co["case"])} for co in it["co"]]}
+    return d
+
+
+def _from_json_base(d):
     names = None
     if d.get("names") is not None:
         names = {k: (tuple(v) if isinstance(v, list) else v) for k, v in d["names"]}
     return {"graph": ct.graph_from_py(d["graph"]), "anchor": d["anchor"], "scheme": d["scheme"], "src": d["src"],
             "style": d.get("style"), "names": names, "hist": d.get("hist"), "dag": bool(d.get("dag")),
             "same_obj": bool(d.get("same_obj")), "adv": d.get("adv")}
+
+
+def from_json(d):
+    c = _from_json_base(d)
+    it = d.get("inter")
+    if it:
+        c["inter"] = {"sched": it["sched"], "k": it.get("k", 1), "first": it.get("first", True),
+                      "co": [co if co["same"] else {"same": False, "case": _from_json_base(co["case"])} for co in it["co"]]}
+    return c
 
 
 def describe_out(out):
@@ -653,6 +829,8 @@ def describe_out(out):
         d["anchor_object"] = out[4]
     if len(out) > 5 and out[5] is not None:
         d["with_DAG_U_lists_edited"] = describe_out(out[5][:3])
+    if len(out) > 6 and out[6] is not None:
+        d["interleaved"] = [describe_out(o) for o in out[6]]
     return d
 
 
@@ -660,7 +838,7 @@ def key(c):
     g = c["graph"]
     names = None if c["names"] is None else tuple(repr(c["names"][n]) for n in g._node)
     return (tuple((n, tuple(g._adj[n])) for n in g._node), c["anchor"], names, repr(c.get("hist")), bool(c.get("dag")),
-            bool(c.get("same_obj")), c.get("adv"))
+            bool(c.get("same_obj")), c.get("adv"), repr(describe(c).get("inter")))
 
 
 def nontrivial(c, out):
@@ -677,6 +855,13 @@ def classes(c, out):
     yield "dag=" + ("yes" if c.get("dag") else "no")
     yield "anchor_obj=" + out[4]
     yield "consumer=" + ("adversarial" if c.get("adv") is not None else "polite")
+    if c.get("inter"):
+        yield "interleave=" + c["inter"]["sched"]
+        for co in c["inter"]["co"]:
+            yield "companions=" + ("other_graph_same_size" if not co["same"] else
+                                   "same_call_twice" if co["anchor"] == c["anchor"] else "same_graph_other_anchor")
+    else:
+        yield "interleave=none"
     if len(out) > 5 and out[5] is not None:
         yield "dag_U_lists_edited=" + ("same_yields" if same_outcome(out, out[5]) else "different_yields")
     if c["names"] is None and c["anchor"] in g:
